@@ -2603,10 +2603,16 @@ client_handshake(int dns_fd, int raw_mode, int autodetect_frag_size, int fragsiz
 			downenc = handshake_downenc_autodetect(dns_fd);
 		} else if (downenc != 'T' &&
 			   do_qtype != T_NULL && do_qtype != T_PRIVATE &&
-			   !handshake_downenctest(dns_fd, downenc) && running) {
+			   (!handshake_downenctest(dns_fd, downenc) ||
+			    (downenc == 'R' && running &&
+			     !handshake_downenctest(dns_fd, 'S'))) && running) {
 			/* A codec given with -O is put to the same test as an
 			   autodetected one. The server's confirmation of the
-			   switch proves nothing: "Raw" in Raw is plain ASCII. */
+			   switch proves nothing: "Raw" in Raw is plain ASCII.
+			   Raw is proven as in handshake_downenc_autodetect():
+			   only the Base64 test sends '+', and the fragment size
+			   probe shows a damaged '+' only when its sequence of
+			   bytes happens to contain one. */
 			fprintf(stderr, "Downstream codec given with -O does not work on this path, using Base32\n");
 			downenc = 'T';
 		}
